@@ -95,6 +95,10 @@ def oracle(prop, graph, init, ops, obs):
                     yield (f"C06 illegal-transition {a}->{b} by {name}", {"step": i, "task": k})
                 if a in FINAL and cur[k] != prev[k] and name not in ("notify",):
                     yield (f"C06 final-state-mutated {a} by {name}", {"step": i, "task": k})
+            if name in ("unschedule", "start", "finish") and o["out"] == "ok" and "n" in op and op["n"] < len(pst):
+                # these calls must move the task on: SCHEDULED -> its state before scheduling / RUNNING / COMPLETED
+                if cst[op["n"]] == pst[op["n"]]:
+                    yield (f"C06 lifecycle-call-returned-without-changing-the-state via={name} state={pst[op['n']]}", {"step": i, "task": op["n"]})
             if name == "cancel" and o["out"] == "ok":
                 root = op["n"]
                 # precondition (reachable through TaskGraph.cancel only): a cancelled task's
